@@ -30,7 +30,8 @@ STUBS = [
 FLOAT_MODE = "D-mode (1e-7 grid) for coordinates, R-mode for weights"
 BOUNDS = {"quick": dict(points_2d=[2, 3], points_3d=[2], coordinate_range="[-50, 50] um"),
           "thorough": dict(points_2d=[2, 3, 4], points_3d=[2, 3], coordinate_range="[-50, 50] um")}
-OUTSIDE = ["static_hash / __eq__ (SHA-256 over tobytes())", "get_traps_from_coordinates (dict lookup by float tuples)", "mappable register order"]
+OUTSIDE = ["static_hash / __eq__ (SHA-256 over tobytes())", "get_traps_from_coordinates (dict lookup by float tuples)",
+           "mappable register order is concrete enumeration (kernel shared with C08)"]
 
 
 def setup():
@@ -206,4 +207,31 @@ def kernels(tier):
 
 
 def harness(kernel, shape):
+    if kernel == "mappable":
+        from checks import c08
+
+        return c08.h_mappable(shape)
     return {"order": h_order, "define": h_define, "wmap": h_wmap}[kernel](shape)
+
+
+_k19, _setup19, _setupc19 = kernels, setup, setup_concrete
+
+
+def kernels(tier):  # noqa: F811
+    from checks import c08
+
+    return _k19(tier) + [(k, sh) for (k, sh) in c08.kernels(tier) if k == "mappable"]
+
+
+def setup():  # noqa: F811
+    _setup19()
+    from checks import c08
+
+    c08.setup()
+
+
+def setup_concrete():  # noqa: F811
+    _setupc19()
+    from checks import c08
+
+    c08.setup_concrete()
